@@ -271,6 +271,9 @@ func genCase(t *rapid.T) Case {
 	if rapid.IntRange(0, 3).Draw(t, "http_vals") == 0 {
 		c.ElemOrder |= 4 // the process also merges httpVals; every record carries one (mergeable or not)
 	}
+	if rapid.IntRange(0, 2).Draw(t, "one_list") == 0 {
+		c.ElemOrder |= 8 // the configuration's lists are parts of one long list
+	}
 	streams := map[string]*stream{}
 	used := map[int]map[uint32]bool{}
 	n := rapid.IntRange(2, 60).Draw(t, "n")
